@@ -10,3 +10,14 @@ Theorem C17_safe_component_stays_inside : forall o c, o <> [] -> safe c ->
   elems (o ++ SL :: c) = (fst (elems o), snd (elems o) ++ [c]).
 Proof. exact join_safe_elems. Qed.
 Print Assumptions C17_safe_component_stays_inside.
+
+(* the parts of a generated file name that come from the document (Proofs/NamesSafe.v): the chapter name never holds a
+   path separator, in any state - an id is used only when it has none, the part and chapter numbers otherwise - and a
+   chapter prefix that holds one is refused by X set *)
+Require NamesSafe.
+Theorem C17_chapter_name_has_no_separator : forall s, Xhtml.X.has_slash (Xhtml.X.chapname s) = false.
+Proof. exact NamesSafe.chapname_has_no_separator. Qed.
+Theorem C17_prefix_with_separator_is_refused : forall v s, Exp.fmt s = Exp.FX -> Xhtml.X.has_slash v = true ->
+  fst (Exp.check_param (St.runes "xhtml-chap-prefix"%string) v s) = false.
+Proof. exact NamesSafe.chap_prefix_with_separator_is_refused. Qed.
+Print Assumptions C17_chapter_name_has_no_separator.
